@@ -137,9 +137,9 @@ var globals = []patDef{
 type grokGen struct {
 	t        *rapid.T
 	defined  int
-	visible  [][]string            // lexical scopes of defined custom names
-	examples map[string][]string   // name -> example matches
-	all      []string              // every custom name defined anywhere (so calls can reference invisible ones)
+	visible  [][]string          // lexical scopes of defined custom names
+	examples map[string][]string // name -> example matches
+	all      []string            // every custom name defined anywhere (so calls can reference invisible ones)
 	feat     map[string]bool
 	nProbe   int
 }
@@ -369,10 +369,10 @@ func TestDatetime(t *testing.T) {
 // ------------------------------------------------------------------ default_time
 
 type tlayout struct {
-	layout string
-	house  bool
-	zoned  bool // the text carries its own offset
-	prec   time.Duration
+	layout   string
+	house    bool
+	zoned    bool // the text carries its own offset
+	prec     time.Duration
 	yearless bool
 }
 
